@@ -1,4 +1,4 @@
-(** C11 — ChunkSize::Exact(c): every pull takes exactly c elements (settings part). *)
+(** C11 — ChunkSize::Exact(c): every pull takes exactly c elements (settings, then the machine). *)
 From OrxPar Require Import Base Settings SettingsP.
 Local Open Scope N_scope.
 
@@ -22,3 +22,37 @@ Example C11_example :
   exists r, runner_new (mkParams (NTMax 8) (CSExact 3)) TCollect (Some 100) 16 = Some r /\
             r_chunk r = RExact 3 /\ next_chunk_size r 5 (Some 40) = Some (Some 3).
 Proof. exists (mkRunner (Some 100) 8 (RExact 3)). vm_compute. repeat split. Qed.
+
+Local Close Scope N_scope.
+From OrxPar Require Import Machine MachineP Program ExactChunks.
+
+(** the machine: with a resolved [Exact x], in every reachable state of every schedule (early exit
+    and panics included) every pull of every worker starts at a multiple of [x] and takes exactly
+    [x] elements, fewer only if it reaches the end of the source *)
+Theorem C11_every_pull_exact : forall (r : Runner) (x : N) (len : nat) (stop panics : nat -> bool)
+  (sched : list nat) (w : worker) (b k : nat),
+  runner_wf r -> r_chunk r = RExact x ->
+  In w (ws (mrunp r len stop panics sched)) -> In (b, k) (pulls w) ->
+  csize w = N.to_nat x /\ (exists q, b = q * N.to_nat x) /\ b < len /\ k = Nat.min (N.to_nat x) (len - b).
+Proof.
+  intros r x len stop panics sched w b k Hw Hx Hin Hp.
+  replace (N.to_nat x) with (m_c0 r) by (unfold m_c0; rewrite Hx; reflexivity).
+  eapply exact_pulls; eauto.
+Qed.
+Print Assumptions C11_every_pull_exact.
+
+(** consequently all elements of an aligned block are processed by the same thread *)
+Theorem C11_block_one_thread : forall (r : Runner) (x : N) (len : nat) (sched : list nat) (w : worker) (i j : nat),
+  runner_wf r -> r_chunk r = RExact x -> all_done (mrun r len (@nostop) sched) ->
+  In w (ws (mrun r len (@nostop) sched)) -> In i (seen w) ->
+  j < len -> j / N.to_nat x = i / N.to_nat x -> In j (seen w).
+Proof.
+  intros r x len sched w i j Hw Hx Hd Hin Hi Hj Hb.
+  pose proof (mrun_outcome Hw _ _ _ Hd) as Hout.
+  destruct (O_full Hout (fun _ => eq_refl)) as [_ Hs].
+  pose proof (proj1 (Forall_forall _ _) Hs w Hin) as E. rewrite E in *.
+  replace (N.to_nat x) with (m_c0 r) in Hb by (unfold m_c0; rewrite Hx; reflexivity).
+  eapply exact_block_one_worker; eauto.
+Qed.
+Print Assumptions C11_block_one_thread.
+
